@@ -15,4 +15,5 @@ CONSTANTS
   Depth = 8
   MaxIdle = 0
   HoldClose = FALSE
+  HoldAck = FALSE
 CHECK_DEADLOCK FALSE
